@@ -470,6 +470,130 @@ func ruleLITFP(c *Ctx) []Obligation {
 	}
 	obs = append(obs, lf.precision(RF, hexRegion)...)
 
+	// ---- 0xL: the halves of the 128-bit pattern are in LLVM's order ---------------------------
+	// LLVM writes the low 64 bits first (AsmWriter prints the APInt's words little-endian):
+	// reader — the high word handed to binary128.NewFromBits (its first parameter) comes from the
+	// second half of the digits; printer — of (high, low) := f.Bits() the low word is formatted first
+	ow := Obligation{Key: "fp128 0xL word order: low 64 bits first", Pos: c.pos(ifd.Pos()), Verdict: UNDECIDED, Detail: "binary128.NewFromBits / Bits not found in the reader / printer"}
+	readerOK, printerOK := 0, 0 // 0 unknown, 1 ok, 2 wrong
+	for _, fd := range RF {
+		defs := collectDefs(info, fd.Body)
+		// second half: a slice expression with a low bound and no high bound; first half: the reverse
+		halfOf := func(e ast.Expr) string {
+			seen := map[types.Object]bool{}
+			var walk func(e ast.Expr, depth int) string
+			walk = func(e ast.Expr, depth int) string {
+				res := ""
+				ast.Inspect(e, func(n ast.Node) bool {
+					switch x := n.(type) {
+					case *ast.SliceExpr:
+						switch {
+						case x.Low != nil && x.High == nil:
+							res = "second"
+						case x.Low == nil && x.High != nil:
+							res = "first"
+						}
+					case *ast.Ident:
+						if obj := info.Uses[x]; obj != nil && !seen[obj] && depth < 4 && res == "" {
+							seen[obj] = true
+							for _, d := range defs[obj] {
+								if r := walk(d, depth+1); r != "" && res == "" {
+									res = r
+								}
+							}
+						}
+					}
+					return res == ""
+				})
+				return res
+			}
+			return walk(e, 0)
+		}
+		ast.Inspect(fd.Body, func(n ast.Node) bool {
+			call, ok := n.(*ast.CallExpr)
+			if !ok || len(call.Args) != 2 {
+				return true
+			}
+			f := calleeOf(info, call)
+			if f == nil || f.Pkg() == nil || f.Pkg().Path() != pkgFLT+"/binary128" || f.Name() != "NewFromBits" {
+				return true
+			}
+			hi, lo := halfOf(call.Args[0]), halfOf(call.Args[1])
+			switch {
+			case hi == "second" && lo == "first":
+				readerOK = 1
+			case hi == "first" && lo == "second":
+				readerOK = 2
+				ow.Pos = c.pos(call.Pos())
+			}
+			return true
+		})
+	}
+	for _, fd := range PF {
+		// (high, low) := <binary128 value>.Bits(); the formatted arguments in order
+		bitsVars := map[types.Object]string{}
+		ast.Inspect(fd.Body, func(n ast.Node) bool {
+			as, ok := n.(*ast.AssignStmt)
+			if !ok || len(as.Lhs) != 2 || len(as.Rhs) != 1 {
+				return true
+			}
+			call, ok := unparen(as.Rhs[0]).(*ast.CallExpr)
+			if !ok {
+				return true
+			}
+			se, ok := unparen(call.Fun).(*ast.SelectorExpr)
+			if !ok || se.Sel.Name != "Bits" {
+				return true
+			}
+			if n := namedOf(info.TypeOf(se.X)); n == nil || n.Obj().Pkg() == nil || n.Obj().Pkg().Path() != pkgFLT+"/binary128" {
+				return true
+			}
+			if a, ok := as.Lhs[0].(*ast.Ident); ok {
+				bitsVars[info.ObjectOf(a)] = "high"
+			}
+			if b, ok := as.Lhs[1].(*ast.Ident); ok {
+				bitsVars[info.ObjectOf(b)] = "low"
+			}
+			return true
+		})
+		if len(bitsVars) == 0 {
+			continue
+		}
+		ast.Inspect(fd.Body, func(n ast.Node) bool {
+			call, ok := n.(*ast.CallExpr)
+			if !ok {
+				return true
+			}
+			var order []string
+			for _, a := range call.Args {
+				if id, ok := unparen(a).(*ast.Ident); ok {
+					if w, ok := bitsVars[info.ObjectOf(id)]; ok {
+						order = append(order, w)
+					}
+				}
+			}
+			if len(order) == 2 {
+				if order[0] == "low" && order[1] == "high" {
+					if printerOK == 0 {
+						printerOK = 1
+					}
+				} else {
+					printerOK = 2
+					ow.Pos = c.pos(call.Pos())
+				}
+			}
+			return true
+		})
+	}
+	switch {
+	case readerOK == 2 || printerOK == 2:
+		ow.Verdict = VIOL
+		ow.Detail = "LLVM writes an fp128 literal as 0xL, the low 64 bits, then the high 64 bits (1.0 is 0xL00000000000000003FFF000000000000); here the halves are taken the other way round (reader: the high word of binary128.NewFromBits must come from the second half of the digits; printer: of high, low := f.Bits() the low word is written first) — a literal is read as another value, or a constant built through the API prints as a literal that LLVM reads as another number"
+	case readerOK == 1 && printerOK == 1:
+		ow.Verdict, ow.Detail = OK, "reader: NewFromBits(second half, first half); printer: low word, then high word"
+	}
+	obs = append(obs, ow)
+
 	// ---- printer: the value is spelled by big.Float's own formatter --------------------------
 	on := Obligation{Key: "float printer: no spelling through an integer conversion", Pos: c.pos(ifd.Pos()), Verdict: OK, Detail: "no (*big.Float).Int64 / Uint64 / Int in the printer"}
 	for _, fd := range PF {
